@@ -116,6 +116,8 @@ def model_request(kind, p):
         return ("cbldm", [p["k"], ids_of(p), p["vals"], 1 if tl > 0 else 0, d, 0 if p.get("d_float") else 1, -1])
     if kind == "numitems":
         return ("numitems", [p["keep"], p["k"], p["i"]])
+    if kind == "bc_trace":
+        return ("bc_trace", [1 if p.get("keep", True) else 0, p["C"], 200000, p["vals"]])
     if kind == "ilp_full":
         o, ok = p["objective"]
         n = len(p["vals"])
@@ -185,6 +187,11 @@ def norm_model(kind, p, r):
         return {"num": r}
     if kind == "ilp_full":
         return {"form": r}
+    if kind == "bc_trace":
+        res, tr = r
+        out = {"exc": res["err"]} if "err" in res else {"bins": res["ok"]}
+        out["trace"] = tr
+        return out
     if kind == "bc_util":
         return {"bool": r} if p["fn"] == "isdom" else {"lists": r}
     return {"raw": r}
@@ -235,6 +242,17 @@ def compare(kind, p, how, impl, model):
         return f"model error: {model['model_error']}"
     if kind == "ilp_full":
         return compare_ilp(p, impl, model)
+    if kind == "bc_trace":
+        if impl.get("exc") != model.get("exc"):
+            return f"impl {short(impl, 120)} vs model {short(model, 120)}"
+        if impl.get("trace") != model.get("trace"):
+            it, mt = impl.get("trace", []), model.get("trace", [])
+            k = next((i for i in range(min(len(it), len(mt))) if it[i] != mt[i]), min(len(it), len(mt)))
+            return (f"search trace differs at call #{k} of find_bin_completions: impl {it[k] if k < len(it) else 'ends (' + str(len(it)) + ' calls)'} vs model "
+                    f"{mt[k] if k < len(mt) else 'ends (' + str(len(mt)) + ' calls)'}")
+        if "bins" in model and sorted(map(str, impl.get("bins", []))) != sorted(map(str, model["bins"])):
+            return f"impl {short(impl.get('bins'), 150)} vs model {short(model['bins'], 150)}"
+        return None
     if kind in ("part", "pack") and model.get("bins") == [] and p.get("out") in ("largest", "smallest", "extreme", "difference"):
         # max()/min() of an empty list of sums: Python raises ValueError (Model/Output.v documents that zmax [] = 0 diverges here)
         return None if impl.get("exc") == "ValueError" else f"impl {short(impl)} vs model: no bins, so max/min of the sums must raise ValueError"
